@@ -154,10 +154,13 @@ dispatch_walltime(const struct timespec *inval, int64_t delta)
 	} else {
 		nsec = (int64_t)_dispatch_get_nanoseconds();
 	}
-	nsec += delta;
+	if (os_add_overflow(nsec, delta, &nsec)) {
+		// out of range in the direction of delta
+		return delta >= 0 ? DISPATCH_TIME_FOREVER : (dispatch_time_t)-2ll;
+	}
 	if (nsec <= 1) {
 		// -1 is special == DISPATCH_TIME_FOREVER == forever
-		return delta >= 0 ? DISPATCH_TIME_FOREVER : (dispatch_time_t)-2ll;
+		return (dispatch_time_t)-2ll;
 	}
 	// range-check: a sum past DISPATCH_TIME_MAX_VALUE must not be encoded,
 	// its bit pattern would denote a time on the monotonic clock
